@@ -18,6 +18,7 @@ package main
 import (
 	"fmt"
 	"os"
+	"runtime"
 	"slices"
 	"strconv"
 	"strings"
@@ -257,6 +258,10 @@ func runParked(fields []string) string {
 	if state != "none" && !fox.VerifWriterLocked(f) {
 		oracles = append(oracles, "the parked writer does not hold the writer lock")
 	}
+	// two collections empty every sync.Pool (primary and victim cache): the read then also takes the paths that run when
+	// the tree's context pool is empty (the pool's New function), deterministically
+	runtime.GC()
+	runtime.GC()
 	res := make(chan string, 1)
 	go func() {
 		defer func() {
@@ -310,7 +315,10 @@ func runParked(fields []string) string {
 // ---------------------------------------------------------------- writers wait only for other writers
 
 var parkedWriteEntries = []string{"W:Handle", "W:Update", "W:Delete", "W:Updates", "W:Txn-commit", "W:Txn-abort", "W:Truncate"}
-var parkedReaderStates = []string{"R:handler", "R:txn", "R:iter", "R:lookup", "R:view", "R:snapshot"}
+var parkedReaderStates = []string{"R:handler", "R:txn", "R:iter", "R:lookup", "R:view", "R:snapshot",
+	// not parked at all: an earlier write transaction has already ended without effect (committed or aborted having written
+	// nothing, or only writes that failed); a writer waits only for writers that are still there
+	"S:commit-empty", "S:commit-reads", "S:commit-failed", "S:abort-empty", "S:updates-noop"}
 
 func doWrite(f *fox.Router, entryPoint string) string {
 	switch entryPoint {
@@ -398,6 +406,44 @@ func runParkedReader(f *fox.Router, entryPoint, state string, opts int) string {
 			close(ready)
 			<-release
 			_ = sn.Len()
+		case "S:commit-empty":
+			txn := f.Txn(true)
+			txn.Commit()
+			close(ready)
+			<-release
+		case "S:commit-reads":
+			txn := f.Txn(true)
+			_ = txn.Has("GET", "/a")
+			_ = txn.Len()
+			for range txn.Iter().All() {
+			}
+			txn.Commit()
+			close(ready)
+			<-release
+		case "S:commit-failed":
+			txn := f.Txn(true)
+			_, _ = txn.Handle("GET", "/a", func(fox.Context) {}) // already registered: ErrRouteExist
+			_, _ = txn.Delete("GET", "/does-not-exist")
+			txn.Commit()
+			close(ready)
+			<-release
+		case "S:abort-empty":
+			txn := f.Txn(true)
+			_ = txn.Len()
+			txn.Abort()
+			txn.Abort()
+			close(ready)
+			<-release
+		case "S:updates-noop":
+			_ = f.Updates(func(txn *fox.Txn) error {
+				if !txn.Has("GET", "/a") {
+					_, err := txn.Handle("GET", "/a", func(fox.Context) {})
+					return err
+				}
+				return nil
+			})
+			close(ready)
+			<-release
 		default:
 			close(ready)
 			<-release
